@@ -138,26 +138,23 @@ Example nuget_agrees_canonical :
   /\ all_equal compare_str_nuget (map b ["1.0.0-BETA"; "1.0.0-beta"; "1.0.0.0-Beta+AA"; "1.0-bEtA"]) = true.
 Proof. vm_compute. split; reflexivity. Qed.
 
-(* ================================================================== CRAN *)
-(* The property FAILS for the code that exists: a component that is not a decimal number becomes a
-   nil *big.Int which components.Cmp dereferences.  Witness: "" against "1.0". *)
-Theorem cran_total_refuted : exists a b : bytes, compare_str_cran a b = Panic.
-Proof. exists (b ""), (b "1.0"). vm_compute. reflexivity. Qed.
-Print Assumptions cran_total_refuted.
+(* ================================================================== CRAN  (after fix 38e33aec) *)
+(* never panics, for any two byte strings: a component that is not a decimal number is still stored
+   as a nil *big.Int, but CompareStr answers ErrInvalidVersion before comparing *)
+Theorem cran_total : forall a b : bytes, compare_str_cran a b <> Panic.
+Proof. exact cran_str_total. Qed.
+Print Assumptions cran_total.
 
-(* ... and it holds on the CRAN grammar: every component a number *)
-Theorem cran_total_on_valid : forall a b : bytes,
+Theorem cran_struct_total : forall v w : cran, cmp_cran v w <> Panic.
+Proof. exact cmp_cran_total. Qed.
+Print Assumptions cran_struct_total.
+
+(* on the CRAN grammar (every component a number) a result is returned *)
+Theorem cran_ok_on_valid : forall a b : bytes,
   valid_cran_string a = true -> valid_cran_string b = true -> exists c, compare_str_cran a b = Ok c.
-Proof. exact cran_str_total_on_valid. Qed.
-Print Assumptions cran_total_on_valid.
+Proof. exact cran_str_ok_on_valid. Qed.
+Print Assumptions cran_ok_on_valid.
 
-Theorem cran_struct_total_on_valid : forall v w : cran,
-  valid_cran v = true -> valid_cran w = true -> cmp_cran v w <> Panic.
-Proof. exact cmp_cran_total_on_valid. Qed.
-Print Assumptions cran_struct_total_on_valid.
-
-(* antisymmetry and reflexivity hold for ALL strings / structures (a panic is symmetric;
-   nil against nil is pointer-equal in big.Int.Cmp and yields 0) *)
 Theorem cran_antisym : forall a b : bytes, compare_str_cran b a = oppO (compare_str_cran a b).
 Proof. exact cran_str_antisym_lemma. Qed.
 Print Assumptions cran_antisym.
@@ -166,11 +163,12 @@ Theorem cran_struct_antisym : forall v w : cran, cmp_cran w v = oppO (cmp_cran v
 Proof. exact cmp_cran_antisym. Qed.
 Print Assumptions cran_struct_antisym.
 
-Theorem cran_refl : forall a : bytes, compare_str_cran a a = Ok Eq.
+(* a string compares equal to itself, or is rejected (a non-numeric component) *)
+Theorem cran_refl : forall a : bytes, compare_str_cran a a = Ok Eq \/ compare_str_cran a a = Err.
 Proof. exact cran_str_refl_lemma. Qed.
 Print Assumptions cran_refl.
 
-Theorem cran_struct_refl : forall v : cran, cmp_cran v v = Ok Eq.
+Theorem cran_struct_refl : forall v : cran, cmp_cran v v = Ok Eq \/ cmp_cran v v = Err.
 Proof. exact cmp_cran_refl. Qed.
 Print Assumptions cran_struct_refl.
 
@@ -192,7 +190,9 @@ Example cran_agrees_canonical :
   ascending compare_str_cran (map b ["0.01"; "0.1-1"; "0.9"; "0.75"; "1.0-0"; "1.0.0.1"; "1.1-0"; "1.10"; "2.0"]) = true
   /\ all_equal compare_str_cran (map b ["0.01.0"; "0.1-0"; "0-1.0"; "000.1.00"]) = true
   /\ valid_cran_string (b "1.123456789012345678901234567890-7") = true
-  /\ valid_cran_string (b "1.0-a") = false /\ valid_cran_string (b "") = false.
+  /\ valid_cran_string (b "1.0-a") = false /\ valid_cran_string (b "") = false
+  (* regression of the fixed finding cran-nil-component-panic *)
+  /\ compare_str_cran (b "") (b "1.0") = Err /\ compare_str_cran (b "1.0") (b "1.a") = Err.
 Proof. vm_compute. repeat split; reflexivity. Qed.
 
 (* ================================================================== RubyGems *)
@@ -436,15 +436,14 @@ Theorem packagist_refl : forall v : packagist, cmp_packagist v v = Ok Eq.
 Proof. exact cmp_packagist_refl. Qed.
 Print Assumptions packagist_refl.
 
-(* The property FAILS for the code that exists: when the lengths differ the next component is
-   classified with strconv.Atoi, which rejects numbers beyond int64 that the main loop accepts:
-   1.99999999999999999999 > 1.5 > 1  but  1.99999999999999999999 = 1 *)
-Theorem packagist_trans_refuted : exists u v w : packagist,
-  cmp_packagist w v = Ok Lt /\ cmp_packagist v u = Ok Lt /\ cmp_packagist w u = Ok Eq.
-Proof. exists (pk ["1"; "99999999999999999999"]), (pk ["1"; "5"]), (pk ["1"]). vm_compute. repeat split; reflexivity. Qed.
-Print Assumptions packagist_trans_refuted.
+(* The property FAILS for the code that exists: a qualifier starting with '#' (PHP's stand-in for
+   "a number") ties with EVERY number:  1.5 = 1.# and 1.# = 1.7  but  1.5 < 1.7 *)
+Theorem packagist_hash_eq_not_transitive_refuted : exists u v w : packagist,
+  cmp_packagist u v = Ok Eq /\ cmp_packagist v w = Ok Eq /\ cmp_packagist u w = Ok Lt.
+Proof. exists (pk ["1"; "5"]), (pk ["1"; "#"]), (pk ["1"; "7"]). vm_compute. repeat split; reflexivity. Qed.
+Print Assumptions packagist_hash_eq_not_transitive_refuted.
 
-(* D: every numeric component fits int64; qualifiers do not start with '#' (the stand-in for numbers) *)
+(* D: no qualifier starts with '#' (numbers of any size are fine since fix cefe0305) *)
 Theorem packagist_trans_on_D : forall u v w : packagist,
   valid_packagist u = true -> valid_packagist v = true -> valid_packagist w = true ->
   leO (cmp_packagist u v) = true -> leO (cmp_packagist v w) = true -> leO (cmp_packagist u w) = true.
@@ -462,8 +461,10 @@ Example packagist_agrees_canonical :
   ascending_s cmp_packagist
     [pk ["1";"0";"dev"]; pk ["1";"0";"alpha";"1"]; pk ["1";"0";"alpha";"2"]; pk ["1";"0";"b";"1"]; pk ["1";"0";"RC";"1"];
      pk ["1";"0"]; pk ["1";"0";"1"]; pk ["1";"0";"pl";"1"]; pk ["1";"1"]; pk ["1";"10"]] = true
-  /\ forallb valid_packagist [pk ["1";"0";"dev"]; pk ["1";"0";"RC";"1"]; pk ["1";"9223372036854775807"]] = true
-  /\ valid_packagist (pk ["1"; "9223372036854775808"]) = false.
+  /\ forallb valid_packagist [pk ["1";"0";"dev"]; pk ["1";"0";"RC";"1"]; pk ["1";"99999999999999999999"]] = true
+  /\ valid_packagist (pk ["1"; "#"]) = false
+  (* regression of the fixed finding packagist-atoi-bigint: 1 < 1.5 < 1.99999999999999999999 *)
+  /\ ascending_s cmp_packagist [pk ["1"]; pk ["1"; "5"]; pk ["1"; "99999999999999999999"]] = true.
 Proof. vm_compute. repeat split; reflexivity. Qed.
 
 (* ================================================================== Alpine  (structure level) *)
@@ -514,15 +515,14 @@ Proof. exact (proj2 cmp_alpine_laws_on_valid). Qed.
 Print Assumptions alpine_eq_equiv_on_D.
 
 (* labelled TEST: apk-tools suffix order alpha < beta < pre < rc < (none) < cvs < svn < git < hg < p,
-   letters, -r build.  NOTE the second conjunct: the implementation pads missing suffixes with
-   weight 5 (= cvs) instead of 4 (= none), so "1.2_cvs" (number 0) compares EQUAL to "1.2" where
-   apk orders 1.2 < 1.2_cvs; recorded as known finding alpine-cvs-suffix-equals-none. *)
+   letters, -r build.  The second conjunct is the regression of the fixed finding
+   alpine-cvs-suffix-equals-none (fix 3b060d98): 1.2 < 1.2_cvs. *)
 Example alpine_agrees_canonical :
   ascending_s cmp_alpine
     [alp ["1";"2"] "" [(0,1)] 0; alp ["1";"2"] "" [(1,1)] 0; alp ["1";"2"] "" [(2,1)] 0; alp ["1";"2"] "" [(3,1)] 0;
-     alp ["1";"2"] "" [] 0; alp ["1";"2"] "" [] 1; alp ["1";"2"] "" [(5,1)] 0; alp ["1";"2"] "" [(6,0)] 0;
+     alp ["1";"2"] "" [] 0; alp ["1";"2"] "" [] 1; alp ["1";"2"] "" [(5,0)] 0; alp ["1";"2"] "" [(5,1)] 0; alp ["1";"2"] "" [(6,0)] 0;
      alp ["1";"2"] "" [(9,0)] 0; alp ["1";"2"] "a" [] 0; alp ["1";"2";"1"] "" [] 0; alp ["1";"10"] "" [] 0]%Z = true
-  /\ cmp_alpine (alp ["1";"2"] "" [] 0) (alp ["1";"2"] "" [(5,0)] 0)%Z = Ok Eq
+  /\ cmp_alpine (alp ["1";"2"] "" [] 0) (alp ["1";"2"] "" [(5,0)] 0)%Z = Ok Lt
   /\ valid_alpine (alp ["1";"0";"01"] "" [] 0) = true /\ valid_alpine (alp ["1";"00"] "" [] 0) = false.
 Proof. vm_compute. repeat split; reflexivity. Qed.
 
